@@ -85,22 +85,23 @@ def run_go2coq(units="all"):
     return rc == 0, out
 
 
-def build_harness():
-    """Build the harness against /repo's current working tree with hooks enabled. Returns (ok, log)."""
+def build_harness(area):
+    """Build tools/harness/cmd/<area> against /repo's current working tree with hooks enabled. Returns (ok, log)."""
     src = os.path.join(ROOT, "tools", "harness")
-    target = os.path.join(BUILD, "harness")
+    target = os.path.join(BUILD, "harness-" + area)
     try:
         with open(os.path.join(REPO, "go.sum")) as f, open(os.path.join(src, "go.sum"), "w") as g:
             g.write(f.read())
     except OSError:
         pass
-    rc, out = sh(["go", "build", "-tags", "verif", "-o", target, "."], cwd=src, env=GOENV, timeout=900)
+    rc, out = sh(["go", "build", "-tags", "verif", "-o", target, "./cmd/" + area], cwd=src, env=GOENV, timeout=900)
     return rc == 0, out
 
 
-def harness(args, seed, timeout=600, input=None, mem_kb=8 * 1024 * 1024):
+def harness(area, args, seed, timeout=600, input=None, mem_kb=8 * 1024 * 1024):
+    """Run build/harness-<area> with the given arguments; returns (rc, stdout, stderr)."""
     env = dict(GOENV, VERIF_SEED=str(seed))
-    cmd = "ulimit -v %d; exec %s %s" % (mem_kb, os.path.join(BUILD, "harness"), " ".join("'%s'" % a for a in args))
+    cmd = "ulimit -v %d; exec %s %s" % (mem_kb, os.path.join(BUILD, "harness-" + area), " ".join("'%s'" % a for a in args))
     try:
         p = subprocess.run(["bash", "-c", cmd], env=env, input=input, stdout=subprocess.PIPE, stderr=subprocess.PIPE,
                            timeout=timeout, text=True, errors="replace")
@@ -316,15 +317,16 @@ class Run:
         return 1 if self.violations else 0
 
 
-def standard_prelude(run, units, need_harness=True):
+def standard_prelude(run, units, harness_area=None):
     """Steps 1-2 of every check: regenerate, rebuild harness, forbidden-word scan. Returns dict of failures."""
     fails = {}
     with Lock():
-        ok, log = run_go2coq(units)
-        if not ok:
-            fails["go2coq"] = log
-        if need_harness:
-            ok, log = build_harness()
+        if units:
+            ok, log = run_go2coq(units)
+            if not ok:
+                fails["go2coq"] = log
+        if harness_area:
+            ok, log = build_harness(harness_area)
             if not ok:
                 fails["harness"] = log
     hits = forbidden_scan()
